@@ -194,6 +194,8 @@ def parse_numbers(numbers, is_date=False):
         for w in colonList:
             if w == "":
                 verif.util.error("Could not parse '%s'. Empty value." % (numbers))
+            if not is_number(w):
+                verif.util.error("Could not translate '" + numbers + "' into numbers")
         if len(colonList) == 1:
             values.append(float(colonList[0]))
         elif len(colonList) <= 3:
